@@ -89,6 +89,21 @@ def run(ctx):
         if not close:
             bad("fitting noise-free production generated from the same curve does not recover M and tau", dict(**inp, window_end_over_tau=end / tau, samples=len(tt), bounds=kind),
                 dict(M=float(fit.M_), tau=float(fit.tau_)))
+        # ---------------- explicit arguments always win over fitted attributes, at the ends of the admissible range too
+        # (M = 0 is the lower end of the default bounds: the forecast is identically zero)
+        M2, tau2 = float(M * rng.uniform(0.3, 3)), float(tau * rng.uniform(0.3, 3))
+        for who, fo in (("fitted forecaster", fit), ("unfitted forecaster", f)):
+            for Mx, taux in ((M2, tau2), (0.0, tau2), (0, tau2)):
+                ev += 1
+                try:
+                    got_x = np.asarray(fo.forecast_cum(tt, Mx, taux), float)
+                except Exception as e:  # noqa: BLE001
+                    bad("forecast_cum with explicit M and tau fails", dict(**inp, who=who, M_given=Mx, tau_given=taux), repr(e)[:160])
+                    continue
+                want_x = float(Mx) * np.asarray(rf(tt / taux), float)
+                if not np.allclose(got_x, want_x, rtol=1e-12, atol=0):
+                    bad("forecast with explicitly given M and tau is not M times the recovery curve at time/tau", dict(**inp, who=who, M_given=Mx, tau_given=taux),
+                        dict(max_abs_diff=float(np.abs(got_x - want_x).max()), fitted_M=float(getattr(fo, "M_", float("nan")))))
         # ---------------- supplied tau: returned unchanged, M the bounded least-squares optimum
         tau_given = tau * float(rng.uniform(0.5, 2.0))
         lo, hi = (M * 0.2, M * 0.9) if k % 2 else (M / 50, M * 50)
